@@ -1,9 +1,10 @@
 // `LruIndex<K>` as seen by its client units (inside verus!): an opaque struct whose methods are external_body stubs.
 // Every requires/ensures below is, clause for clause, the contract that unit `lru_index` (units/lru_index.vrs) proves
-// for the real method of engine/src/lru_index.rs against the same model (`lru_model.rs`); keep the two texts identical.
+// for the real method of engine/src/lru_index.rs against the same model (`lru_model.rs`).  Unit `implied_lru` machine-checks that
+// each stub contract below FOLLOWS from the proved one (//@assumed); keep the `impl` header on one line (the tool locates it by it).
 // Not stubbed: `detach` (private) and `for_each_recent` (not under contract in unit lru_index).
 //@include lru_model.rs
-//@trusted LruIndex<K> stub contracts (with_capacity, len, contains, clear, insert_new, touch, remove, pop_lru, lemma_wf_order) = the contracts discharged in unit lru_index
+//@trusted LruIndex<K> stub contracts (with_capacity, len, contains, clear, insert_new, touch, remove, pop_lru, lemma_wf_order) = implied by the contracts discharged in unit lru_index (checked by unit implied_lru); what stays trusted is the opaque struct itself
 #[verifier::external_body]
 #[verifier::reject_recursive_types(K)]
 pub struct LruIndex<K>
@@ -13,10 +14,7 @@ where
     _p: core::marker::PhantomData<K>,
 }
 
-impl<K> LruIndex<K>
-where
-    K: Eq + Hash + Copy,
-{
+impl<K> LruIndex<K> where K: Eq + Hash + Copy {
     // abstract view: `order()` is the recency order (oldest first), `keys()` its set; `wf()` = the links represent some order
     pub uninterp spec fn wf(&self) -> bool;
     pub uninterp spec fn order(&self) -> Seq<K>;
